@@ -156,6 +156,13 @@ pub fn append_stream(ctx: &mut Ctx) {
 			history::<u32>(ctx, "u32", &mut rng, false, start, &[3, add]);
 		}
 	}
+	// buffers of more than a MiB at the moment the count prefix widens (63 -> 64 items of 17 KB;
+	// 2^14 - 1 -> 2^14 items of 80 bytes), handed in with and without spare capacity
+	for _ in 0..3 {
+		history::<[u8; 17000]>(ctx, "[u8;17000]", &mut rng, false, 63, &[1, 1]);
+		history::<[u8; 80]>(ctx, "[u8;80]", &mut rng, true, 16383, &[1, 2]);
+		history::<[u8; 80]>(ctx, "[u8;80]", &mut rng, false, 16380, &[5]);
+	}
 	// alias item forms: &str items into a Vec<String>, &&T, Box<T>
 	for _ in 0..rounds {
 		let mut g = G::new(rng.next(), 6);
